@@ -1,5 +1,6 @@
 """C20 - the chain-sync client keeps listeners on one consistent chain at the best tip (structural part)."""
 from engine import *
+import provenance
 
 BS = 'lightning_block_sync::'
 POLL = BS + 'poll::'
@@ -654,4 +655,5 @@ RULES = [
 	('20.g', 'check_builds_on refuses non-connecting headers', r20g),
 	('20.i', 'a cached previous header is used only after the header leading to it was checked to connect', r20i),
 	('20.h', 'start-up sync: disconnect to the fork point, connect only above each listener, abort on fetch failure', r20h),
+	('20.v', 'field-versus-field comparisons (a received value against a limit, an id against an id) are the reviewed ones: same fields, same operator (rules/provenance.py)', lambda F: provenance.cmps_for_property(F, 'C20', '20.v')),
 ]
